@@ -20,3 +20,7 @@ pub use crate::util::heap::space_descriptor::SpaceDescriptor;
 /// `policy::marksweepspace::native_ms::block_list` (size classes).
 pub use crate::policy::marksweepspace::native_ms::mi_bin;
 pub use crate::policy::marksweepspace::native_ms::verif_hooks_block_list as ms_block_list;
+
+/// `util::heap::gc_trigger` (module-private `MemBalancerTrigger` constructor and heap-limit computation).
+pub use crate::util::heap::gc_trigger::verif_hooks as gc_trigger;
+pub use crate::util::heap::gc_trigger::{FixedHeapSizeTrigger, MemBalancerTrigger};
